@@ -117,6 +117,15 @@ int main(void) {
             for (unsigned i = 0; i < pages; i++) for (int w = 0; w < 127; w++) if (vol.bitmapTable[i]->map[w] != bg) { hitp = i; hitw = w; hitm = vol.bitmapTable[i]->map[w] ^ bg; }
             printf(" %ld %ld %u %d", hitp, hitw, hitm, res);
             for (unsigned i = 0; i < pages; i++) free(vol.bitmapTable[i]); free(vol.bitmapTable); free(vol.bitmapBlocksChg); }
+        else if (!strcmp(f, "output_name")) { /* output_name <dirhex|-> <pathhex|-> <namehex|-> */
+            extern char *extract_dir; extern BOOL pipe_mode; extern char *output_name(char *path, char *name);
+            static uint8_t d[600], pa[600], nm[600];
+            pipe_mode = TRUE;            /* no directories are created */
+            unhex(a[1], d, sizeof d); unhex(a[2], pa, sizeof pa); unhex(a[3], nm, sizeof nm);
+            extract_dir = strcmp(a[1], "-") ? (char *)d : NULL;
+            char *o = output_name((char *)pa, (char *)nm);
+            putchar(' '); if (!*o) putchar('-'); for (char *q = o; *q; q++) printf("%02x", (uint8_t)*q);
+            free(o); }
         else printf(" unknown");
         putchar('\n');
     }
